@@ -86,7 +86,9 @@ class Client:
 
         self.__capabilities: dict[str, str] = {}
         self.__respcode_expr = re.compile(rb"(OK|NO|BYE)\s*(.+)?")
-        self.__error_expr = re.compile(rb'(\([\w/-]+\))?\s*(".+")')
+        self.__error_expr = re.compile(
+            rb'(?:\(([^)]*)\))?\s*("(?:[^"\\]|\\.)*"|\{\d+\+?\})?\s*$'
+        )
         self.__size_expr = re.compile(rb"\{(\d+)\+?\}")
         self.__active_expr = re.compile(rb"ACTIVE", re.IGNORECASE)
 
@@ -322,20 +324,22 @@ class Client:
 
         :param text: the response to parse
         """
-        m = self.__size_expr.match(text)
-        if m is not None:
-            self.errcode = b""
-            self.errmsg = self.__read_block(int(m.group(1)) + 2)
-            return
-
-        m = self.__error_expr.match(text)
+        self.errcode = b""
+        self.errmsg = b""
+        m = self.__error_expr.match(text or b"")
         if m is None:
             raise Error("Bad error message")
         if m.group(1) is not None:
-            self.errcode = m.group(1).strip(b"()")
+            self.errcode = m.group(1)
+        msg = m.group(2)
+        if msg is None:
+            return
+        size = self.__size_expr.match(msg)
+        if size is not None:
+            # literal text, followed by CRLF
+            self.errmsg = self.__read_block(int(size.group(1)) + 2)[:-2]
         else:
-            self.errcode = b""
-        self.errmsg = m.group(2).strip(b'"')
+            self.errmsg = msg[1:-1]
 
     def _plain_authentication(
         self, login: bytes, password: bytes, authz_id: bytes = b""
